@@ -83,20 +83,33 @@ example :
   exact Or.inr (synth_new _ _ _ _ (by decide) (by decide) (by decide) (by decide) (by decide))
 
 
-/-! ### `WriteDirectory` is not idempotent on ZIP64 entries -/
+/-! ### `WriteDirectory` twice: idempotent as the code stands (fix 7d5f1c2), not before -/
 
 /-- the entry `NewFile` makes for `nEx` written at offset 0xffffffff -/
 def fBigOwn : File := newEntryAt 0 33 nEx 0xffffffff
 
+/-- **write_directory_idempotent.** (Code as it stands.)  `WriteDirectory` leaves the directory as it was — `GetDirectoryHeader`
+    synthesises the ZIP64 field into a copy — so a second `WriteDirectory` (same flag) on the directory it returns writes
+    the same bytes, for EVERY directory (entries at or beyond 4 GiB included): what `AppxDigest.Sign` hashes for AXCD
+    (`writeSignature`) is what it then writes. -/
+theorem write_directory_idempotent (d : Directory) (force : Bool) :
+    (writeDirectory d force).2.2 = d ∧
+    writeDirectory (writeDirectory d force).2.2 force = writeDirectory d force := by
+  have h : (writeDirectory d force).2.2 = d := by
+    show { d with files := (headersOf d.files).2 } = d
+    rw [headersOf_files]
+  exact ⟨h, by rw [h]⟩
+
 set_option maxRecDepth 20000 in
-/-- **write_directory_twice_prepends_twice.** `GetDirectoryHeader` stores the extra block it synthesised (ZIP64 field in
-    front) back into the entry, so a second `WriteDirectory` on the same directory prepends the 28-byte field again: the
-    second central directory is 28 bytes longer per ZIP64 entry.  `AppxDigest.Sign` calls `WriteDirectory` twice on the
-    same directory (`writeSignature` for AXCD, then the final one): for a package whose regenerated parts lie at or beyond
-    0xffffffff the hashed AXCD is not the directory that is written.  This is why `C01.appx_sign_then_verify_zip` assumes
-    `r.sigOff ≤ 0xffffffff` and part sizes below 0xffffffff.  (Reproduced on the Go code: see the report.) -/
-theorem write_directory_twice_prepends_twice :
+/-- **write_directory_twice_prepends_twice_orig (F-APPX-ZIP64, the code BEFORE fix 7d5f1c2: `writeDirectoryOrig`).** `GetDirectoryHeader`
+    stored the extra block it synthesised (ZIP64 field in front) back into the entry, so a second `WriteDirectory` on the same
+    directory prepended the 28-byte field again: the second central directory was 28 bytes longer per ZIP64 entry.
+    `AppxDigest.Sign` calls `WriteDirectory` twice on the same directory (`writeSignature` for AXCD, then the final one): for
+    a package whose regenerated parts lay at or beyond 0xffffffff the hashed AXCD was not the directory that was written. -/
+theorem write_directory_twice_prepends_twice_orig :
+    (writeDirectoryOrig (writeDirectoryOrig { files := [fBigOwn], size := 0, dirLoc := 0x100000040 } true).2.2 true).1.length =
+      (writeDirectoryOrig { files := [fBigOwn], size := 0, dirLoc := 0x100000040 } true).1.length + 28 ∧
     (writeDirectory (writeDirectory { files := [fBigOwn], size := 0, dirLoc := 0x100000040 } true).2.2 true).1.length =
-      (writeDirectory { files := [fBigOwn], size := 0, dirLoc := 0x100000040 } true).1.length + 28 := by decide
+      (writeDirectory { files := [fBigOwn], size := 0, dirLoc := 0x100000040 } true).1.length := by decide
 
 end Relic.Props.C17
